@@ -12,7 +12,8 @@ let () = run_lines (fun toks ->
     let a = Array.of_list (List.map zs args) in
     let s = string_of_z in
     (match op with
-     | "add" | "addin" -> s (Model.addZ sb sg cb p a.(0) a.(1))
+     | "add" -> s (Model.addZ sb sg cb p a.(0) a.(1))
+     | "addin" -> s (Model.addinZ sb sg cb p a.(0) a.(1))
      | "sub" | "subin" -> s (Model.subZ sb sg cb p a.(0) a.(1))
      | "mul" | "mulin" -> s (Model.mulZ sb sg cb p a.(0) a.(1))
      | "neg" | "negin" -> s (Model.negZ sb sg cb p a.(0))
